@@ -625,6 +625,578 @@ fn exec_loom(case: &Case, ex: &mut Exec) {
 }
 
 // ---------------------------------------------------------------------------------------------
+// layer `stress`: the `sync` flavour of fd.rs on OS threads (evidence; the output line is schedule independent)
+// ---------------------------------------------------------------------------------------------
+
+struct FlagWake(AtomicBool);
+impl std::task::Wake for FlagWake {
+    fn wake(self: Arc<Self>) {
+        self.0.store(true, Ordering::SeqCst);
+    }
+}
+
+/// closer polled once (parked, 3 references), then two threads drop one clone each at the same moment.
+/// After both have finished: either the closer's waker was woken, or it never will be.
+fn stress_twodrop(max_iters: usize, budget: std::time::Duration) -> (usize, usize) {
+    let t0 = std::time::Instant::now();
+    let mut lost = 0;
+    let mut iters = 0;
+    while iters < max_iters && t0.elapsed() < budget {
+        iters += 1;
+        let a = fd_sync::SharedFd::new(Plain(0));
+        let b = a.clone();
+        let c = a.clone();
+        let flag = Arc::new(FlagWake(AtomicBool::new(false)));
+        let waker = Waker::from(flag.clone());
+        let mut cx = Context::from_waker(&waker);
+        let mut fut = Box::pin(a.take());
+        assert!(fut.as_mut().poll(&mut cx).is_pending());
+        let go = AtomicUsize::new(0);
+        std::thread::scope(|sc| {
+            for x in [b, c] {
+                let go = &go;
+                sc.spawn(move || {
+                    go.fetch_add(1, Ordering::SeqCst);
+                    while go.load(Ordering::SeqCst) < 2 {
+                        std::hint::spin_loop();
+                    }
+                    drop(x);
+                });
+            }
+        });
+        if !flag.0.load(Ordering::SeqCst) {
+            lost += 1;
+            // the closer is the only owner now: a poll would succeed, but nothing will ever cause one
+            assert!(matches!(fut.as_mut().poll(&mut cx), Poll::Ready(Some(_))));
+        }
+    }
+    (iters, lost)
+}
+
+fn exec_stress(case: &Case, ex: &mut Exec) {
+    let ws: Vec<&str> = case.lines[0].split_whitespace().collect();
+    let n: usize = ws.get(2).and_then(|s| s.parse().ok()).unwrap_or(2000);
+    match ws.get(1).copied() {
+        Some("twodrop") => {
+            let (iters, lost) = stress_twodrop(n, std::time::Duration::from_millis(2500));
+            ex.out.push("done".into());
+            ex.tag(if lost > 0 { "stress-lost-wake-seen" } else { "stress-lost-wake-not-seen" });
+            if lost > 0 {
+                ex.fail(
+                    "F8:sharedfd-sync-lost-wake",
+                    format!("stress (OS threads, synchrony::sync): closer parked with 3 references, two threads drop one clone each: waker never woken in {lost} of {iters} runs"),
+                );
+            }
+        }
+        _ => ex.out.push("bad-op".into()),
+    }
+    ex.nontrivial = true;
+}
+
+// ---------------------------------------------------------------------------------------------
+// runtimes (one per driver, reused by every case)
+// ---------------------------------------------------------------------------------------------
+
+use std::{io, time::Duration};
+
+use compio_driver::{DriverType, ProactorBuilder, ToSharedFd};
+use compio_runtime::Runtime;
+
+thread_local! {
+    static RTS: RefCell<[Option<Runtime>; 2]> = const { RefCell::new([None, None]) };
+}
+
+fn with_rt<T>(iour: bool, f: impl FnOnce(&Runtime) -> T) -> Result<T, String> {
+    let idx = iour as usize;
+    let rt = RTS.with(|r| -> Result<Runtime, String> {
+        let mut r = r.borrow_mut();
+        if r[idx].is_none() {
+            let mut pb = ProactorBuilder::new();
+            pb.driver_type(if iour { DriverType::IoUring } else { DriverType::Poll }).capacity(64);
+            let rt = compio_runtime::RuntimeBuilder::new()
+                .with_proactor(pb)
+                .build()
+                .map_err(|e| format!("runtime build: {e}"))?;
+            if rt.driver_type().is_iouring() != iour {
+                return Err("driver type not available".into());
+            }
+            // warm up: blocking pool thread, notifier, ...
+            rt.block_on(async {
+                let f = compio_fs::File::open("/dev/null").await.unwrap();
+                f.close().await.unwrap();
+                let s = compio_net::TcpSocket::new_v4().await.unwrap();
+                drop(s);
+            });
+            r[idx] = Some(rt);
+        }
+        Ok(r[idx].clone().unwrap())
+    })?;
+    Ok(rt.enter(|| f(&rt)))
+}
+
+fn drive(rt: &Runtime) {
+    rt.poll_with(Some(Duration::ZERO));
+    rt.run();
+}
+
+/// drive until `done()` or the patience is used up
+fn settle(rt: &Runtime, patience: Duration, mut done: impl FnMut() -> bool) -> bool {
+    let t0 = std::time::Instant::now();
+    loop {
+        drive(rt);
+        drive(rt);
+        if done() {
+            return true;
+        }
+        if t0.elapsed() >= patience {
+            return false;
+        }
+        std::thread::sleep(Duration::from_micros(50));
+    }
+}
+
+// ---------------------------------------------------------------------------------------------
+// layer `rt`: clone / drop / in-flight operation / close() on real File, UnixStream, TcpStream
+// ---------------------------------------------------------------------------------------------
+
+type IoFut = Pin<Box<dyn Future<Output = io::Result<usize>>>>;
+type CloseFut = Pin<Box<dyn Future<Output = io::Result<()>>>>;
+
+#[derive(Clone)]
+enum Obj {
+    File(compio_fs::File),
+    Unix(compio_net::UnixStream),
+    Tcp(compio_net::TcpStream),
+}
+
+impl Obj {
+    fn raw(&self) -> RawFd {
+        match self {
+            Obj::File(f) => f.as_raw_fd(),
+            Obj::Unix(f) => f.as_raw_fd(),
+            Obj::Tcp(f) => f.as_raw_fd(),
+        }
+    }
+
+    /// address of the strong count; only called while no closer waits (the temporary clone's drop must not wake)
+    fn count_ptr(&self) -> *const usize {
+        fn p<T>(s: compio_driver::SharedFd<T>) -> *const usize {
+            assert_eq!(std::mem::size_of_val(&s), std::mem::size_of::<usize>());
+            unsafe { *(&s as *const _ as *const *const usize) }
+        }
+        match self {
+            Obj::File(f) => p(f.to_shared_fd()),
+            Obj::Unix(f) => p(f.to_shared_fd()),
+            Obj::Tcp(f) => p(f.to_shared_fd()),
+        }
+    }
+
+    fn close(self) -> CloseFut {
+        match self {
+            Obj::File(f) => Box::pin(f.close()),
+            Obj::Unix(f) => Box::pin(f.close()),
+            Obj::Tcp(f) => Box::pin(f.close()),
+        }
+    }
+
+    /// an operation that stays in flight: the future owns a helper clone of the handle, the op its own clone
+    fn start_op(&self) -> IoFut {
+        use compio_io::{AsyncRead, AsyncReadAt};
+        match self.clone() {
+            Obj::File(f) => Box::pin(async move { f.read_at(Vec::with_capacity(4), 0).await.0 }),
+            Obj::Unix(f) => Box::pin(async move { (&f).read(Vec::with_capacity(4)).await.0 }),
+            Obj::Tcp(f) => Box::pin(async move { (&f).read(Vec::with_capacity(4)).await.0 }),
+        }
+    }
+}
+
+enum Peer {
+    None,
+    Unix(std::os::unix::net::UnixStream),
+    Tcp(std::net::TcpStream),
+}
+
+enum RActor {
+    Handle(Obj),
+    Helper,
+    Op { fut: IoFut, waker: Waker },
+    Closer { fut: Option<CloseFut>, polled: bool, parked: bool, wakes_seen: usize, waker: Waker },
+    Gone,
+}
+
+struct RtWorld<'a> {
+    rt: &'a Runtime,
+    actors: Vec<RActor>,
+    peer: Peer,
+    wake_log: Arc<Mutex<Vec<usize>>>,
+    raw: RawFd,
+    count_ptr: *const usize,
+    closed: bool,
+    sentinel: Option<RawFd>,
+    kind: String,
+    dropped_unpolled_close: bool,
+}
+
+fn tcp_pair() -> (std::net::TcpStream, std::net::TcpStream) {
+    let l = std::net::TcpListener::bind("127.0.0.1:0").unwrap();
+    let a = std::net::TcpStream::connect(l.local_addr().unwrap()).unwrap();
+    let (b, _) = l.accept().unwrap();
+    (a, b)
+}
+
+impl<'a> RtWorld<'a> {
+    fn new(rt: &'a Runtime, kind: &str) -> Option<Self> {
+        let (obj, peer) = match kind {
+            "file" => {
+                let f = std::fs::File::open("/proc/self/exe").unwrap();
+                let raw = std::os::fd::IntoRawFd::into_raw_fd(f);
+                (Obj::File(unsafe { compio_fs::File::from_raw_fd(raw) }), Peer::None)
+            }
+            "unix" => {
+                let (a, b) = std::os::unix::net::UnixStream::pair().unwrap();
+                (Obj::Unix(compio_net::UnixStream::from_std(a).unwrap()), Peer::Unix(b))
+            }
+            "tcp" => {
+                let (a, b) = tcp_pair();
+                (Obj::Tcp(compio_net::TcpStream::from_std(a).unwrap()), Peer::Tcp(b))
+            }
+            _ => return None,
+        };
+        let raw = obj.raw();
+        let count_ptr = obj.count_ptr();
+        Some(RtWorld {
+            rt,
+            actors: vec![RActor::Handle(obj)],
+            peer,
+            wake_log: Arc::new(Mutex::new(vec![])),
+            raw,
+            count_ptr,
+            closed: false,
+            sentinel: None,
+            kind: kind.to_string(),
+            dropped_unpolled_close: false,
+        })
+    }
+
+    fn wakes_of(&self, c: usize) -> usize {
+        self.wake_log.lock().unwrap().iter().filter(|&&x| x == c).count()
+    }
+
+    fn holders(&self) -> usize {
+        self.actors
+            .iter()
+            .filter(|a| match a {
+                RActor::Handle(_) | RActor::Helper | RActor::Op { .. } => true,
+                RActor::Closer { fut, .. } => fut.is_some(),
+                RActor::Gone => false,
+            })
+            .count()
+    }
+
+    /// observe whether the descriptor number has been closed; once seen, a sentinel keeps the number busy
+    fn observe_closed(&mut self) -> bool {
+        if !self.closed && !fd_is_open(self.raw) {
+            self.closed = true;
+            let s = devnull();
+            if s.as_raw_fd() == self.raw {
+                self.sentinel = Some(std::os::fd::IntoRawFd::into_raw_fd(s));
+            } else if unsafe { libc::dup2(s.as_raw_fd(), self.raw) } == self.raw {
+                self.sentinel = Some(self.raw);
+            }
+        }
+        self.closed
+    }
+
+    fn line(&mut self, r: &str) -> String {
+        let closed = self.observe_closed();
+        let count = if closed { 0 } else { unsafe { std::ptr::read_volatile(self.count_ptr) } };
+        // closers that are parked and have been woken since their last poll
+        let mut pw = vec![];
+        for (i, a) in self.actors.iter().enumerate() {
+            if let RActor::Closer { fut: Some(_), parked: true, wakes_seen, .. } = a {
+                if self.wakes_of(i) > *wakes_seen {
+                    pw.push(i.to_string());
+                }
+            }
+        }
+        let pw = if pw.is_empty() { "-".to_string() } else { pw.join(",") };
+        format!("ok c={} open={} pw={} r={}", count, !closed as u8, pw, r)
+    }
+
+    fn event(&mut self, w: &[&str], ex: &mut Exec) -> Option<String> {
+        let id: usize = w.get(1)?.parse().ok()?;
+        if id >= self.actors.len() {
+            return None;
+        }
+        let holders_before = self.holders();
+        let mut r = "-".to_string();
+        let mut rawish = false;
+        let short = Duration::from_micros(300);
+        match w[0] {
+            "clone" => {
+                let RActor::Handle(h) = &self.actors[id] else { return None };
+                let n = RActor::Handle(h.clone());
+                self.actors.push(n);
+            }
+            "drop" => match std::mem::replace(&mut self.actors[id], RActor::Gone) {
+                RActor::Handle(h) => drop(h),
+                other => {
+                    self.actors[id] = other;
+                    return None;
+                }
+            },
+            "op" => {
+                let RActor::Handle(h) = &self.actors[id] else { return None };
+                let mut fut = h.start_op();
+                let n = self.actors.len() + 1;
+                let waker = mk_waker(n, &self.wake_log);
+                let mut cx = Context::from_waker(&waker);
+                match fut.as_mut().poll(&mut cx) {
+                    Poll::Pending => {
+                        self.actors.push(RActor::Helper);
+                        self.actors.push(RActor::Op { fut, waker });
+                    }
+                    Poll::Ready(res) => {
+                        // completed synchronously: both clones are gone again
+                        self.actors.push(RActor::Gone);
+                        self.actors.push(RActor::Gone);
+                        r = format!("imm-{}", if res.is_ok() { "ok" } else { "err" });
+                    }
+                }
+            }
+            "fin" => {
+                if !matches!(self.actors[id], RActor::Op { .. }) {
+                    return None;
+                }
+                match &mut self.peer {
+                    Peer::Unix(p) => {
+                        use std::io::Write;
+                        p.write_all(b"x").unwrap();
+                    }
+                    Peer::Tcp(p) => {
+                        use std::io::Write;
+                        p.write_all(b"x").unwrap();
+                    }
+                    Peer::None => {}
+                }
+                let RActor::Op { mut fut, waker } = std::mem::replace(&mut self.actors[id], RActor::Gone) else {
+                    unreachable!()
+                };
+                self.actors[id - 1] = RActor::Gone;
+                let mut res = None;
+                let rt = self.rt;
+                settle(rt, Duration::from_secs(2), || {
+                    let mut cx = Context::from_waker(&waker);
+                    match fut.as_mut().poll(&mut cx) {
+                        Poll::Ready(x) => {
+                            res = Some(x);
+                            true
+                        }
+                        Poll::Pending => false,
+                    }
+                });
+                drop(fut);
+                match res {
+                    Some(Ok(_)) => r = "ok".into(),
+                    Some(Err(e)) => {
+                        r = "err".into();
+                        let bad = e.raw_os_error() == Some(libc::EBADF);
+                        ex.fail(
+                            if bad { "C06:ebadf" } else { "C06:op-error" },
+                            format!("operation holding a clone failed: {e}"),
+                        );
+                    }
+                    None => {
+                        r = "stuck".into();
+                        ex.fail("C06:op-stuck", "operation did not complete");
+                    }
+                }
+            }
+            "cancel" => {
+                if !matches!(self.actors[id], RActor::Op { .. }) {
+                    return None;
+                }
+                let before = if self.closed { 0 } else { unsafe { std::ptr::read_volatile(self.count_ptr) } };
+                self.actors[id] = RActor::Gone; // future dropped: cancel issued, helper clone dropped
+                self.actors[id - 1] = RActor::Gone;
+                let ptr = self.count_ptr;
+                let raw = self.raw;
+                // the driver releases the operation (and its clone) once the cancellation has completed
+                settle(self.rt, Duration::from_secs(2), || {
+                    !fd_is_open(raw) || unsafe { std::ptr::read_volatile(ptr) } + 2 <= before
+                });
+            }
+            "close" => match std::mem::replace(&mut self.actors[id], RActor::Gone) {
+                RActor::Handle(h) => {
+                    let waker = mk_waker(id, &self.wake_log);
+                    self.actors[id] =
+                        RActor::Closer { fut: Some(h.close()), polled: false, parked: false, wakes_seen: 0, waker };
+                }
+                other => {
+                    self.actors[id] = other;
+                    return None;
+                }
+            },
+            "poll" => {
+                let seen = self.wakes_of(id);
+                let rt = self.rt;
+                let RActor::Closer { fut, polled, parked, wakes_seen, waker } = &mut self.actors[id] else {
+                    return None;
+                };
+                let Some(f) = fut.as_mut() else { return None };
+                *polled = true;
+                *wakes_seen = seen;
+                // run the closer to quiescence: poll, and while the close operation is in flight drive the
+                // runtime and poll again. If other holders exist nothing is in flight: one poll.
+                let mut out: Option<io::Result<()>> = None;
+                let patience = if holders_before == 1 { Duration::from_secs(2) } else { short };
+                let mut polls = 0;
+                settle(rt, patience, || {
+                    polls += 1;
+                    if polls > 1 && holders_before != 1 {
+                        return true;
+                    }
+                    let mut cx = Context::from_waker(waker);
+                    match f.as_mut().poll(&mut cx) {
+                        Poll::Ready(x) => {
+                            out = Some(x);
+                            true
+                        }
+                        Poll::Pending => false,
+                    }
+                });
+                match out {
+                    Some(res) => {
+                        *fut = None;
+                        *parked = false;
+                        r = if res.is_ok() { "ready".into() } else { "ready-err".into() };
+                        if let Err(e) = res {
+                            ex.fail("C06:close-error", format!("close() returned {e}"));
+                        }
+                        rawish = true; // decided below: `Ready` with the descriptor still open = the `None` path
+                    }
+                    None => {
+                        *parked = true;
+                        *wakes_seen = seen.max(*wakes_seen);
+                        r = "pending".into();
+                        if holders_before == 1 {
+                            ex.fail("C06:close-not-completed", "close() pending although the closer is the only holder");
+                        }
+                    }
+                }
+            }
+            "dropfut" => {
+                let RActor::Closer { fut, parked, polled, .. } = &mut self.actors[id] else { return None };
+                if fut.is_none() {
+                    return None;
+                }
+                if !*polled {
+                    self.dropped_unpolled_close = true;
+                }
+                *fut = None;
+                *parked = false;
+                rawish = true;
+            }
+            _ => return None,
+        }
+        // ---- monitors ----
+        let closed = self.observe_closed();
+        let holders = self.holders();
+        if closed && holders > 0 {
+            ex.fail("C06:closed-in-use", format!("descriptor closed while {holders} holders remain (after `{}`)", w.join(" ")));
+        }
+        if w[0] == "poll" && r == "ready" && !closed && holders_before == 1 {
+            ex.fail("C06:close-did-not-close", "close() completed as sole owner but the descriptor is still open");
+        }
+        if w[0] == "poll" && r == "ready" && closed && holders_before != 1 {
+            ex.fail("C06:close-before-release", format!("close() closed the descriptor while {} other holders existed", holders_before - 1));
+        }
+        for (i, a) in self.actors.iter().enumerate() {
+            if let RActor::Closer { fut: Some(_), parked: true, wakes_seen, .. } = a {
+                if holders == 1 && self.wakes_of(i) == *wakes_seen {
+                    if rawish {
+                        ex.fail(
+                            "F8b:sharedfd-raw-drop-lost-wake",
+                            format!("{}: close() future {i} parked, sole owner, never woken: last reference released by `{}`", self.kind, w.join(" ")),
+                        );
+                    } else {
+                        ex.fail("C06:lost-wake", format!("close() future {i} parked, sole owner, not woken after `{}`", w.join(" ")));
+                    }
+                }
+            }
+        }
+        Some(self.line(&r))
+    }
+
+    fn finish(mut self, ex: &mut Exec) {
+        self.actors.clear();
+        let rt = self.rt;
+        let raw = self.raw;
+        settle(rt, Duration::from_millis(20), || !fd_is_open(raw));
+        if !self.observe_closed() {
+            if self.dropped_unpolled_close {
+                ex.fail(
+                    "F8c:close-future-dropped-unpolled-leak",
+                    format!("{}: every handle, operation and close() future is gone but descriptor {} is still open: a close() future was dropped before its first poll (handle forgotten in ManuallyDrop)", self.kind, self.raw),
+                );
+            } else {
+                ex.fail("C06:fd-leak", format!("descriptor {} still open after every value was dropped", self.raw));
+            }
+            unsafe { libc::close(self.raw) };
+        }
+        if let Some(s) = self.sentinel {
+            if !fd_is_open(s) {
+                ex.fail("C06:double-close", "descriptor number closed a second time");
+            } else {
+                unsafe { libc::close(s) };
+            }
+        }
+    }
+}
+
+fn exec_rt(case: &Case, iour: bool, kind: &str, ex: &mut Exec) {
+    let r = with_rt(iour, |rt| {
+        let before = open_fds();
+        let Some(mut w) = RtWorld::new(rt, kind) else {
+            for _ in &case.lines {
+                ex.out.push("bad-op".into());
+            }
+            return;
+        };
+        let l0 = w.line("-");
+        ex.out.push(l0);
+        let mut kinds = std::collections::BTreeSet::new();
+        for l in &case.lines[1..] {
+            let ws: Vec<&str> = l.split_whitespace().collect();
+            match w.event(&ws, ex) {
+                Some(o) => {
+                    kinds.insert(ws[0].to_string());
+                    ex.out.push(o)
+                }
+                None => ex.out.push("rej".into()),
+            }
+        }
+        w.finish(ex);
+        drive(rt);
+        let after = open_fds();
+        if before != after {
+            ex.fail("C06:fd-balance", format!("open descriptors before {before:?} after {after:?}"));
+        }
+        ex.tag(format!("rt-{}-{}", if iour { "iour" } else { "poll" }, kind));
+        for k in &kinds {
+            ex.tag(format!("rtev-{k}"));
+        }
+        ex.nontrivial = kinds.len() >= 3;
+    });
+    if let Err(e) = r {
+        ex.out.clear();
+        for _ in &case.lines {
+            ex.out.push(format!("no-runtime {e}"));
+        }
+    }
+}
+
+// ---------------------------------------------------------------------------------------------
 
 fn generate(tier: &str, rng: &mut Rng) -> Vec<Case> {
     let mut cases = vec![];
@@ -663,6 +1235,7 @@ fn generate(tier: &str, rng: &mut Rng) -> Vec<Case> {
     for (k, n) in [("par", 0), ("joined", 1), ("joined", 2), ("seq", 1), ("par", 1), ("par", 2), ("seq", 2)] {
         cases.push(Case { name: format!("loom-{k}-{n}"), lines: vec![format!("loom {k} {n}")] });
     }
+    cases.push(Case { name: "stress-twodrop".into(), lines: vec![format!("stress twodrop {}", if quick { 3000 } else { 30000 })] });
     cases
 }
 
@@ -752,6 +1325,13 @@ fn exec(case: &Case) -> Exec {
     match head.as_slice() {
         ["sfd", "unsync"] => exec_sfd::<compio_driver::SharedFd<Tracked>>(case, false, &mut ex),
         ["sfd", "sync"] => exec_sfd::<fd_sync::SharedFd<Tracked>>(case, true, &mut ex),
+        ["rt", d @ ("iour" | "poll"), kind] => exec_rt(case, *d == "iour", kind, &mut ex),
+        ["stress", ..] => {
+            exec_stress(case, &mut ex);
+            for _ in 1..case.lines.len() {
+                ex.out.push("bad-op".into());
+            }
+        }
         ["loom", ..] => {
             exec_loom(case, &mut ex);
             for _ in 1..case.lines.len() {
